@@ -1162,7 +1162,7 @@ def resolve_bool(v, op, depth=0, at=None):
             if v.var_name(l) is not None:
                 # a user-declared bool set from constants on different paths (`let mut ok = false; .. ok = true;`)
                 return Cond("place", pl=pl, neg=False, at=at)
-            return Cond("const", val=None)
+            return Cond("const", val=None, pl=pl, neg=False)
         return Cond("place", pl=pl, neg=False, at=at)
     d = nonconst[0]
     if d[0] == "c":
